@@ -223,6 +223,10 @@ fn c04_transport_set_region_then_step_terminates() {
 	let mut t = Transport { position, loop_region: None, playing: true };
 	t.set_loop_region(Some(kv_region(ls, if end_of_audio { None } else { Some(le) })), 48000, n);
 	let eff_le = if end_of_audio { n } else { le };
+	// what makes the wrap loops terminate (asserted as a state fact so that a violation replays natively as an
+	// assertion failure; the hang itself shows up as an unwinding-assertion failure, which has no concrete trace)
+	assert!(t.loop_region.map_or(true, |(a, b)| a < b), "a loop region that is kept is non-empty: the wrap loops terminate");
+	if ls < eff_le { assert!(t.loop_region == Some((ls, eff_le))); } else { assert!(t.loop_region.is_none(), "an empty or inverted region is ignored"); }
 	kani::assume(ls >= eff_le || (position < eff_le && position >= ls));
 	if kani::any() { t.increment_position(n); } else { t.decrement_position(); }
 	// a region reaching beyond the end of the audio is kept as requested (the part past the end
